@@ -1,0 +1,179 @@
+//! Verification hooks. Compiled only with `--cfg agdb_verif`.
+//!
+//! `delay(index)` is awaited at the top of the execution of every committed
+//! cluster log entry. It sleeps for the number of milliseconds scheduled for
+//! that log index (none by default). The schedule is read once from the
+//! environment variable `VERIF_C31_CASE` (`index:delay_ms,index:delay_ms,...`,
+//! several cases separated by `;` of which the first one is taken); the
+//! test entry point `verif::c31` replaces it for every case it runs.
+
+use std::collections::HashMap;
+use std::sync::Mutex;
+use std::sync::OnceLock;
+use std::time::Duration;
+
+static DELAYS: OnceLock<Mutex<HashMap<u64, u64>>> = OnceLock::new();
+
+fn parse_case(case: &str) -> Vec<(u64, u64)> {
+    case.split(',')
+        .filter_map(|item| {
+            let (index, delay) = item.trim().split_once(':')?;
+            Some((index.trim().parse().ok()?, delay.trim().parse().ok()?))
+        })
+        .collect()
+}
+
+fn cases() -> Vec<Vec<(u64, u64)>> {
+    std::env::var("VERIF_C31_CASE")
+        .unwrap_or_default()
+        .split(';')
+        .map(parse_case)
+        .filter(|case| !case.is_empty())
+        .collect()
+}
+
+fn delays() -> &'static Mutex<HashMap<u64, u64>> {
+    DELAYS.get_or_init(|| {
+        Mutex::new(
+            cases()
+                .into_iter()
+                .next()
+                .unwrap_or_default()
+                .into_iter()
+                .collect(),
+        )
+    })
+}
+
+pub(crate) async fn delay(index: u64) {
+    let ms = delays()
+        .lock()
+        .map(|delays| delays.get(&index).copied().unwrap_or_default())
+        .unwrap_or_default();
+
+    if ms > 0 {
+        tokio::time::sleep(Duration::from_millis(ms)).await;
+    }
+}
+
+/// Entry point of the C31 check. For every case of `VERIF_C31_CASE` it
+/// builds the server database, the cluster log, the database pool and
+/// the cluster (storage) in a fresh temporary directory, appends one
+/// `UserAdd` entry per scheduled index (in increasing index order),
+/// commits all of them with ONE `commit` call and prints
+///
+/// `ORDER <case> <indexes in the order the executions were notified>`
+/// `EFFECT <case> <indexes in the order their users were inserted>`
+/// `UNEXECUTED <case> <number of entries not marked executed at the end>`
+#[cfg(test)]
+#[tokio::test(flavor = "multi_thread", worker_threads = 4)]
+async fn c31() -> crate::server_error::ServerResult<()> {
+    use crate::action::ClusterAction;
+    use crate::action::user_add::UserAdd;
+    use crate::config::Config;
+    use crate::raft::Log;
+    use crate::raft::Storage;
+
+    crate::password::init(None);
+
+    for (case_no, case) in cases().into_iter().enumerate() {
+        let directory =
+            std::env::temp_dir().join(format!("agdb_verif_c31_{}_{}", std::process::id(), case_no));
+        let _ = std::fs::remove_dir_all(&directory);
+        let config = Config::new(crate::config::from_str(&format!(
+            "data_dir: {}\n",
+            directory.to_string_lossy()
+        ))?);
+        let mut indexes: Vec<u64> = case.iter().map(|(index, _)| *index).collect();
+        indexes.sort();
+        indexes.dedup();
+        *delays().lock()? = case.into_iter().collect();
+
+        let (shutdown_sender, shutdown_receiver) = tokio::sync::broadcast::channel::<()>(1);
+        let server_db = crate::server_db::new(&config, shutdown_receiver).await?;
+        let cluster_log = crate::cluster_log::new(&config).await?;
+        let db_pool = crate::db_pool::new(config.clone(), &server_db).await?;
+        let cluster = crate::cluster::new(&config, &server_db, &cluster_log, &db_pool).await?;
+        let mut order = Vec::new();
+
+        {
+            let mut raft = cluster.raft.write().await;
+            let mut executed = raft.storage.subscribe().await;
+
+            for index in &indexes {
+                raft.storage
+                    .append(
+                        Log {
+                            db_id: None,
+                            index: *index,
+                            term: 1,
+                            data: ClusterAction::UserAdd(UserAdd {
+                                user: format!("user{index}"),
+                                password: vec![*index as u8],
+                                salt: vec![1],
+                            }),
+                        },
+                        None,
+                    )
+                    .await?;
+            }
+
+            raft.storage
+                .commit(indexes.last().copied().unwrap_or_default())
+                .await?;
+
+            while order.len() < indexes.len() {
+                match tokio::time::timeout(Duration::from_secs(60), executed.recv()).await {
+                    Ok(Ok(index)) => order.push(index),
+                    _ => break,
+                }
+            }
+        }
+
+        let mut users = Vec::new();
+
+        for index in &indexes {
+            if let Some(id) = server_db.find_user_id(&format!("user{index}")).await? {
+                users.push((id.0, *index));
+            }
+        }
+
+        users.sort();
+
+        let mut unexecuted = usize::MAX;
+
+        for _ in 0..600 {
+            unexecuted = cluster_log
+                .logs_unexecuted(indexes.last().copied().unwrap_or_default())
+                .await?
+                .len();
+
+            if unexecuted == 0 {
+                break;
+            }
+
+            tokio::time::sleep(Duration::from_millis(10)).await;
+        }
+
+        let to_str = |values: Vec<u64>| {
+            values
+                .iter()
+                .map(|v| v.to_string())
+                .collect::<Vec<String>>()
+                .join(" ")
+        };
+
+        println!("ORDER {case_no} {}", to_str(order));
+        println!(
+            "EFFECT {case_no} {}",
+            to_str(users.into_iter().map(|(_, index)| index).collect())
+        );
+        println!("UNEXECUTED {case_no} {unexecuted}");
+
+        let _ = shutdown_sender.send(());
+        drop(cluster);
+        let _ = std::fs::remove_dir_all(&directory);
+    }
+
+    Ok(())
+}
